@@ -67,7 +67,7 @@ CHECKS = {
         "flattening, where the flattening stops at the first error); for ANY set of page reads turned into failures the rows a scan sees are the fault-free rows or a prefix of them "
         "followed by an error (C12_table_rows, C12_index_rows, C12_table_scan, C12_index_scan, C12_store; overflow pages included); the same for the from-key scans and Table.Rowid (C12_scan_min, C12_scan_range, C12_scan_eq, C12_rowid) and for the HIGH LEVEL API - "
         "Select, SelectRowid, IndexedSelect, IndexedSelectEq, PKSelect with the sqlite_master read, the nested rowid / primary key lookup per index entry and the row mapping all through the faulty pager, "
-        "any schema record, any callback whose state only grows (C12_select, C12_select_rowid, C12_indexed_select, C12_indexed_select_eq, C12_pk_select; Proofs/FaultHighP.v). Every run: the k-th physical read of every "
+        "any schema record, any callback whose state only grows (C12_select, C12_select_rowid, C12_indexed_select, C12_indexed_select_eq, C12_pk_select; Proofs/FaultHighP.v), and the same end to end with the schema record itself computed from the file through the faulty pager (C12_e2e_*). Every run: the k-th physical read of every "
         "operation (low level and high level, incl. the nested lookups of the indexed selects) fails, for every k up to the fault-free read count, as I/O error and as short read; "
         "the verdict is the property predicate itself; always-failing pages are run through the extracted model and the implementation.",
    note="The from-key operations have their own simulation proof (Proofs/FaultMinP.v): Index.ScanMin / ScanRange / ScanEq with any callback whose collected rows only grow (C12_scan_min, "
